@@ -48,8 +48,10 @@ def _finish(pid, tier, seed, t0, outs, mc_stats, rule, assumptions, extra_cov=No
     for sc, t, v in violations[:20]:
         if sc.get('recorded'):
             path = runner.write_replay(pid, sc, t, v)
-            print('VIOLATION property=%s replay=%s clause=%s event=%d all=%s (recorded run of the repository test suite)'
-                  % (pid, path, v['clause'], v['at'], ','.join(v.get('also', []))))
+            print('VIOLATION property=%s replay=%s clause=%s event=%d all=%s (%s)'
+                  % (pid, path, v['clause'], v['at'], ','.join(v.get('also', [])),
+                     'backup store binding: ' + str(v.get('detail', '')) if sc.get('backupbind')
+                     else 'recorded run of the repository test suite'))
             reported += 1
             continue
         t2 = runner._run_one(sc)
@@ -496,6 +498,32 @@ def run_property(pid, tier, seed, scale=1.0):
             o = runner.Outcome()
             o.machinery = [('repotests', repr(x)[:1500])]
             outs.append(o)
+    if P.get('backupbind'):
+        # mechanism-level binding of spec/FBBackup.tla (slot naming, restore_all) to FileBackups
+        from . import backupbind
+        nfiles = P['backupbind'][0] if tier == 'quick' else P['backupbind'][1]
+        o = runner.Outcome()
+        o.total = 1
+        try:
+            clause, detail, bst = backupbind.run(nfiles)
+        except Exception as x:      # noqa
+            clause, detail, bst = 'H:backupbind', repr(x)[:1500], {}
+        if clause == '':
+            o.accepted = 1
+            o.stats['states'] += bst.get('states', 0)
+            o.stats['distinct'] += bst.get('distinct', 0)
+            o.stats['jvms'] += 1
+        elif clause.startswith('H:'):
+            o.machinery = [('backupbind', detail)]
+        else:
+            bsc = {'id': 'backupbind-%d' % nfiles, 'recorded': True, 'backupbind': nfiles, 'steps': []}
+            o.violations.append((bsc, {'id': bsc['id'], 'events': []},
+                                 {'verdict': 'rejected', 'clause': clause, 'at': 0, 'also': [clause], 'detail': detail,
+                                  'st': {}, 'kf': []}))
+            o.clause_hist[clause] = 1
+        outs.append(o)
+        extra_cov = dict(extra_cov or {}, backup_store_binding={'files_moved_aside_and_restored': nfiles,
+                                                               'spec': 'FBBackup!Name via FBBackupTrace'})
     if P.get('samples'):
         try:
             n = int((P['samples'][0] if tier == 'quick' else P['samples'][1]) * scale)
@@ -515,6 +543,14 @@ def replay(pid, path):
     with open(path) as f:
         d = json.load(f)
     sc = d['scenario']
+    if sc.get('backupbind'):
+        from . import backupbind
+        clause, detail, _ = backupbind.run(sc['backupbind'])
+        print('backup store binding, %d files: %s %s' % (sc['backupbind'], clause or 'accepted', detail))
+        if clause:
+            print('VIOLATION property=%s replay=%s clause=%s' % (pid, path, clause))
+            return 1
+        return 0
     t = runner._run_one(sc)
     v, _ = tlc.validate([t], jobs=1, open_kf=runner.open_kf_names())
     vv = v[t['id']]
@@ -589,7 +625,9 @@ def selftest(with_mutants=True):
         ok &= good
     # (3) the mechanism models have teeth
     for cfg, module, inv in [('Conc_A_noD7.cfg', 'FBConcMC.tla', 'DirsOwned'), ('Conc_B_noD16.cfg', 'FBConcMC.tla', 'WinnerOutputIntact'),
-                             ('Fence_root_late.cfg', 'FBFence.tla', 'RootReturnedBeforeWrite')]:
+                             ('Fence_root_late.cfg', 'FBFence.tla', 'RootReturnedBeforeWrite'),
+                             ('Backup_nonatomic.cfg', 'FBBackup.tla', 'SlotsDistinct'),
+                             ('Backup_twice.cfg', 'FBBackup.tla', 'RestoreGivesOldest')]:
         good, st, out = tlc.model_check(cfg, module, workers=8, timeout=300)
         hit = ('Invariant %s is violated' % inv) in out
         print('selftest: %-22s expects violation of %-24s -> %s' % (cfg, inv, 'found' if hit else 'NOT FOUND'))
